@@ -729,6 +729,8 @@ func (ex *Exec) doBuiltin(fr *Frame, st *State, site ssa.Instruction, b *ssa.Bui
 		k(st, SVal{T: sCap(args[0].T)})
 	case "append":
 		k(st, ex.doAppend(fr, st, c, args, pos))
+	case "copy":
+		k(st, ex.doCopy(fr, st, c, args, pos))
 	case "recover":
 		if st.panicV != nil {
 			v := *st.panicV
@@ -741,6 +743,36 @@ func (ex *Exec) doBuiltin(fr *Frame, st *State, site ssa.Instruction, b *ssa.Bui
 		ex.errorf("%s: builtin %s unsupported", fnName(fr.fn), b.Name())
 		k(st, ex.havocResult(st, c.Signature().Results()))
 	}
+}
+
+// copy(dst, src): the first min(len(dst), len(src)) elements of src, as they were before the call (memmove), are written
+// into dst; everything else keeps its value.  Writing needs ownership of dst's array.
+func (ex *Exec) doCopy(fr *Frame, st *State, c *ssa.CallCommon, args []SVal, pos token.Pos) SVal {
+	d, s := args[0].T, args[1].T
+	u, ok := c.Args[0].Type().Underlying().(*types.Slice)
+	if !ok || ex.w.sortOf(c.Args[1].Type()) != "Slice" {
+		ex.errorf("copy from a string unsupported")
+		return SVal{T: ex.fresh("copyn", "Int")}
+	}
+	h := ex.w.elemHeap(u.Elem())
+	n := ex.fresh("copyn", "Int")
+	st.assume(eq(n, ite(le(sLen(d), sLen(s)), sLen(d), sLen(s))))
+	mine := ex.heapTerm(st, ex.w.ghostHeap("G_mine"))
+	ex.check(fr, st, "frame-store", "copy", pos, implies(lt("0", n), sel(mine, sArr(d))))
+	old := ex.heapTerm(st, h)
+	nw := ex.havocHeap(st, h)
+	tgt := sArr(d)
+	st.assume(fmt.Sprintf("(forall ((a Int)) (! (=> (not (= a %s)) (= (select %s a) (select %s a))) :pattern ((select %s a))))", tgt, nw, old, nw))
+	nt := fmt.Sprintf("(select %s %s)", nw, tgt)
+	pat := fmt.Sprintf(":pattern ((select %s i))", nt)
+	st.assume(fmt.Sprintf("(forall ((i Int)) (! (=> (or (< i %s) (>= i (+ %s %s))) (= (select %s i) (select (select %s %s) i))) %s))",
+		sOff(d), sOff(d), n, nt, old, tgt, pat))
+	st.assume(fmt.Sprintf("(forall ((i Int)) (! (=> (and (<= %s i) (< i (+ %s %s))) (= (select %s i) (select (select %s %s) (+ %s (- i %s))))) %s))",
+		sOff(d), sOff(d), n, nt, old, sArr(s), sOff(s), sOff(d), pat))
+	// the same in relative form, the shape contracts use for elements of a slice
+	st.assume(fmt.Sprintf("(forall ((j Int)) (! (=> (and (<= 0 j) (< j %s)) (= (select %s (idx %s j)) (select (select %s %s) (idx %s j)))) :pattern ((select %s (idx %s j)))))",
+		n, nt, sOff(d), old, sArr(s), sOff(s), nt, sOff(d)))
+	return SVal{T: n}
 }
 
 // append(s, t...): in place when len+n <= cap, otherwise a fresh array.
